@@ -96,8 +96,18 @@ def main():
     subprocess.check_call(["git", "-C", "/repo", "worktree", "add", "-q", "--detach", wt, "HEAD"])
     res = {"seed": sid}
     try:
-        demo = os.path.join(wt, "_seed_demo.py")
+        # mirror the tester's layout: <worktree>/_mut/<k>/demo.py (+ helper modules in <worktree>/_mut/)
+        k = os.path.basename(os.path.abspath(src))
+        os.makedirs(os.path.join(wt, "_mut", k), exist_ok=True)
+        demo = os.path.join(wt, "_mut", k, "demo.py")
         shutil.copy(os.path.join(src, "demo.py"), demo)
+        helpers = []
+        pdir = os.path.dirname(os.path.abspath(src))
+        for extra in os.listdir(pdir):
+            ep = os.path.join(pdir, extra)
+            if extra.endswith(".py") and os.path.isfile(ep):
+                shutil.copy(ep, os.path.join(wt, "_mut", extra))
+                helpers.append(extra)
         rc0, out0 = run_demo(wt, demo)
         res["demo_clean_exit"] = rc0
         rc, out = sh(["git", "apply", "--3way", "--whitespace=nowarn", os.path.join(src, "patch.diff")], cwd=wt)
@@ -131,6 +141,9 @@ def main():
             os.makedirs(dst, exist_ok=True)
             shutil.copy(os.path.join(src, "patch.diff"), dst)
             shutil.copy(os.path.join(src, "demo.py"), dst)
+            for h in helpers:
+                os.makedirs(os.path.join(dst, "helpers"), exist_ok=True)
+                shutil.copy(os.path.join(pdir, h), os.path.join(dst, "helpers", h))
             meta = {}
             mp = os.path.join(src, "meta.json")
             if os.path.exists(mp):
@@ -143,7 +156,7 @@ def main():
             meta["verified"] = {
                 "repo_head": head,
                 "ran": [
-                    "scratch worktree of /repo HEAD; demo.py on clean tree -> exit %d" % rc0,
+                    "scratch worktree <wt> of /repo HEAD; demo copied to <wt>/_mut/<k>/demo.py (helpers/ to <wt>/_mut/); `cd <wt> && python _mut/<k>/demo.py` on the clean tree -> exit %d" % rc0,
                     "git apply patch.diff; demo.py -> exit %d" % rc1,
                     "stable suite (8 test files, isolated HOME, -n 8) with the patch: missing stable tests = %s" % res.get("stable_tests_missing", "not run"),
                     "every ready check, quick tier, --root <worktree>",
